@@ -15,6 +15,7 @@ macro_rules! with_prop {
             "C03" => $m!(props::C03, $($args)*),
             "C04" => $m!(props::C04, $($args)*),
             "C05" => $m!(props::C05, $($args)*),
+            "C06" => $m!(props::C06, $($args)*),
             "C08" => $m!(props::C08, $($args)*),
             "C09" => $m!(props::C09, $($args)*),
             "C10" => $m!(props::C10, $($args)*),
